@@ -211,10 +211,10 @@ def harness_file(fmt, entry, stream=False):
 CORE = ["%d", "%i", "%u", "%x", "%X", "%o", "%c", "%s", "a%%b", "%5d", "%-5d", "%05d", "%+d", "% d", "%.3d", "%5.3d", "%#x", "%#o",
         "%ld", "%lld", "%hd", "%hhd", "%hhu", "%hu", "%lu", "%llx", "%zu", "%jd", "%td", "%*d", "%.*d", "%.0d", "%s|%d", "ab%dcd",
         "%5s", "%-5s", "%.2s", "%5.2s", "%c%c", "%x %o", "%08X", "%+5d", "%#5x", "%-+5d", "% 05d", "%#.3x", "%#06x", "%3c", "%-3c", "%lc", "ab%lc|",
-        "%-5.3d", "%-+6.3d", "%-6.3x", "%#.3o", "%#5.3o", "%#.0o", "%#o", "%5.0s", "%-4.0s", "%3.s", "%+5d", "%5d|%-4d", "[%ls]"]
+        "%-5.3d", "%-+6.3d", "%-6.3x", "%#.3o", "%#5.3o", "%#.0o", "%#o", "%5.0s", "%-4.0s", "%3.s", "%+5d", "%5d|%-4d", "[%ls]", "%-06d", "%-+07d"]
 MORE = ["%.*s", "%*s", "%%%d", "%d%%", "%+.3d", "%-#6o", "%#X", "%lli", "%hi", "%hhi", "%hx", "%hhx", "%lo", "%llo", "%zx", "%jx", "%ju", "%tx",
         "%0*d", "%-*.*d", "%+*d", "%.1s", "%.0s", "%10.4s", "%-6.1s", "%s%s", "%d %s %c", "%#.0o", "%#.0x", "%+.0d", "%ho",
-        "x%5cy", "%- 5d", "%+ d", "%00d", "%--5d", "%.10d", "%20d", "%-20d|", "%020d", "%llu", "%lx", "%lX", "%#lx", "%#llo"]
+        "x%5cy", "%- 5d", "%+ d", "%00d", "%--5d", "%.10d", "%20d", "%-20d|", "%020d", "%llu", "%lx", "%lX", "%#lx", "%#llo", "%- 08ld", "%-0*i", "%-05x", "%-05u", "%-#06x", "%-06c", "%-06s"]
 FLOATS_Q = ["%.1f", "%.0f", "%.2f", "%6.1f", "%+.1f"]
 FLOATS_T = FLOATS_Q + ["%f", "%.3f", "%-6.1f", "%06.1f", "% .1f", "%F", "%#.0f", "%.1F", "%8.2f", "%-+7.2f"]
 N_FMTS = ["%n", "a%n", "%%%n", "%d%n", "%ln", "%hhn", "%hn", "%lln", "%jn", "%zn", "%tn", "%5n", "%-n", "%.3n", "%*n", "%%n%n",
